@@ -2,6 +2,7 @@ package c15
 
 import (
 	"fmt"
+	"math"
 	"math/rand/v2"
 	"os"
 	"reflect"
@@ -158,6 +159,42 @@ func checkContract(c contractCase) *vk.Failure {
 			return vk.Failf("modularize-multiplex-first-layer-inactive-panics", "ModularizeMultiplex with an edgeless or zero-weight first layer (weights %v) ended in %v: %s", mc.LayerW, r.Outcome, r.Text)
 		}
 
+	case "container-self-weight":
+		// simple.NewWeighted*Graph(self, absent) reports Weight(x,x) = self. Q and
+		// QMultiplex count that as the diagonal entry A_xx (degrees and 2m
+		// included); the reduced graphs returned by Modularize are documented to
+		// return "the internal node weight" for Weight(x,x), and Q of the
+		// original graph for Communities() must equal Q of the reduced graph.
+		directed := v%2 == 1
+		es := twoTriangles
+		if directed {
+			es = biDir(es)
+		}
+		m := newModel(graphCase{N: 6, Directed: directed, Edges: es}).withSelf(1)
+		if v < 2 {
+			g := m.buildWeighted()
+			top := community.Modularize(g, 1, rand.NewPCG(1, 1))
+			qo := community.Q(g, top.Communities(), 1)
+			qr := community.Q(top, nil, 1)
+			if math.Abs(qo-qr) > 1e-12 {
+				return vk.Failf("modularize-ignores-container-self-weight", "weighted container with self=1 (two triangles joined by an edge): Q(g, r.Communities(), 1) = %v but Q(r, nil, 1) = %v: Q counts Weight(x,x)=self as A_xx, the base reduction of Modularize gives every node internal weight 0", qo, qr)
+			}
+			return nil
+		}
+		mc := mxCase{N: 6, Directed: directed, Layers: [][]edgeT{es}, LayerW: []vk.F{1}}
+		mm := newMxModel(mc)
+		mm.layers[0] = m
+		g, err := mm.build(mc)
+		if err != nil {
+			return vk.Failf("layers-error", "%v", err)
+		}
+		top := community.ModularizeMultiplex(g, []float64{1}, nil, false, rand.NewPCG(1, 1))
+		qo := community.QMultiplex(g, top.Communities(), []float64{1}, nil)
+		qr := community.QMultiplex(top, nil, []float64{1}, nil)
+		if math.Abs(qo[0]-qr[0]) > 1e-9 {
+			return vk.Failf("modularize-ignores-container-self-weight", "multiplex layer in a weighted container with self=1: QMultiplex(g, r.Communities()) = %v but QMultiplex(r, nil) = %v", qo, qr)
+		}
+
 	case "empty-graph":
 		m := newModel(graphCase{N: 0, Directed: true})
 		g := m.buildUnweighted().(graph.Directed)
@@ -210,7 +247,7 @@ func rwLaplacianDocumentedAsRowForm() (rowForm, ok bool) {
 
 func TestContract(t *testing.T) {
 	var cases []contractCase
-	for sc, k := range map[string]int{"expanded-nil": 4, "rw-laplacian-orientation": 3, "modularize-edgeless": 8, "mx-nil-weights": 2, "mx-first-layer-inactive": 4, "empty-graph": 3} {
+	for sc, k := range map[string]int{"expanded-nil": 4, "rw-laplacian-orientation": 3, "modularize-edgeless": 8, "mx-nil-weights": 2, "mx-first-layer-inactive": 4, "empty-graph": 3, "container-self-weight": 4} {
 		for v := 0; v < k; v++ {
 			cases = append(cases, contractCase{sc, v})
 		}
